@@ -278,7 +278,10 @@ def check_import(cfg, crate, rep):
         if r_ is False:
             return True
         al = F.atoms(r_)
-        cands = [{a: False for a in al}] + [{a: (a == b) for a in al} for b in al]
+        if len(al) <= 14:
+            import itertools as _it
+            return any(not F.evalf(r_, dict(zip(al, bits))) for bits in _it.product([False, True], repeat=len(al)))
+        cands = [{a: False for a in al}] + [{a: (a == b) for a in al} for b in al] + [{a: (a in (b, c)) for a in al} for b in al for c in al]
         return any(not F.evalf(r_, asg) for asg in cands)
     multi_ok = bool(shape) and always(2) and always(3) and sometimes_accepted(1)
     found_m = "no refusal depends on the number of attributes of an RDN" if not shape else "always refused with 2 / 3 attributes: %s / %s; a single-attribute RDN can be accepted: %s" % (always(2), always(3), sometimes_accepted(1))
